@@ -593,7 +593,8 @@ class C11(Prop):
             "call on' fault) x one application history: either a single call sequence of 1..8 calls over accept / receive / "
             "receive_text / receive_bytes / iter_text / iter_bytes (m steps) / send_text / send_bytes / raw send (accept, send, "
             "close, unknown types) / close (once, twice), or accept followed by a concurrent reader task and writer task with seeded "
-            "sleeps; non-trivial = two tasks interleaved or a fault/latency fired; distinct = distinct SHA-1 of the scheduling-event "
+            "sleeps, or a receive-side task (accept, iterator whose loop body also calls receive()) racing with a send-side task (close / "
+            "send / raw close) that may act before, during or after accept(); non-trivial = two tasks interleaved or a fault/latency fired; distinct = distinct SHA-1 of the scheduling-event "
             "sequence (which task called what / which message was delivered or forwarded at which virtual instant)")
     assumptions = ("SimLoop keeps asyncio's FIFO call_soon order; only timer ties and external latencies are permuted",
                    "the server always delivers websocket.connect first and always ends with websocket.disconnect; a receive() issued "
@@ -607,7 +608,7 @@ class C11(Prop):
     components = {"real": ["baize.asgi.websocket.WebSocket / WebSocketDisconnect / WebSocketState", "baize.asgi.requests.HTTPConnection",
                            "asyncio tasks / async generators (CPython)"],
                   "stub": ["event-loop selector/clock (SimLoop)", "ASGI WebSocket server receive()/send() (sim.models.ws.WsPeer)"]}
-    hard_probes = ("variant_seq", "variant_conc", "mismatch_batch", "typed_mismatch", "illegal_call", "unspecified_call", "close_twice",
+    hard_probes = ("variant_seq", "variant_conc", "variant_race", "mismatch_batch", "typed_mismatch", "illegal_call", "unspecified_call", "close_twice",
                    "iter_partial", "call_after_disconnect", "disconnect_delivered", "send_raises", "recv_waited", "send_latency")
     quick_runs = 200000
     thorough_runs = 2000000
@@ -615,7 +616,7 @@ class C11(Prop):
 
     # -- plan ----------------------------------------------------------------------------------
     def gen_plan(self, t):
-        variant = t.weighted([(3, "seq"), (1, "conc")])
+        variant = t.weighted([(6, "seq"), (2, "conc"), (1, "race")])
         k = t.draw(5)
         frames = []
         for i in range(k):
@@ -629,6 +630,16 @@ class C11(Prop):
         if variant == "seq":
             plan["mismatch"] = t.draw(8) == 7
             plan["ops"] = gen_ops(t)
+        elif variant == "race":
+            # a receive-side task (accept, then an iterator whose loop body also calls receive(), or typed receives) races with a
+            # send-side task (close / send / raw close) that may act before, during or after accept(); judged by the global
+            # monitors only (grammar, monotone states, no receive after disconnect, close once, no hang)
+            frames = [("text", "t%d" % i) for i in range(k)]
+            plan["mismatch"] = True        # per-call model and frame accounting are off: only the global monitors judge
+            plan["recv_side"] = {"accept_delay": t.choice(OP_DELAYS), "style": t.choice(["iter+receive", "iter+receive", "typed", "iter"]),
+                                 "body_receive_every": 1 + t.draw(2), "delays": [t.choice(OP_DELAYS) for _ in range(3)]}
+            plan["send_side"] = [(t.choice([("close", None), ("close", 1001), ("send_text", "w"), ("raw", {"type": "websocket.close"}), ("close", None)]), t.choice(OP_DELAYS))
+                                 for _ in range(1 + t.draw(3))]
         else:
             style = t.weighted([(2, "typed"), (2, "raw"), (2, "iter")])
             if style == "iter":
@@ -657,13 +668,71 @@ class C11(Prop):
             ctx.probe("variant_seq")
             if plan["mismatch"]:
                 ctx.probe("mismatch_batch")
+        elif plan["variant"] == "race":
+            surf = "race"
+            ctx.actors = 2
+            ctx.probe("variant_race")
         else:
             ctx.actors = 2
             ctx.probe("variant_conc")
 
         async def scenario(loop):
             run = _Run(plan, ctx, loop, surf)
-            if plan["variant"] == "seq":
+            if plan["variant"] == "race":
+                ok_exc = ("RuntimeError", "AssertionError", "WebSocketDisconnect", "KeyError", "ClientGone")
+
+                def note(who, i, name, out):
+                    run.log_out(who, i, name, out)
+                    run.sample("%s step %d" % (who, i))
+                    if out[0] == "exc" and out[1] not in ok_exc:
+                        run.violate("unexpected-exception", "%s|%s" % (name, out[1]), repr(out[2]))
+
+                async def recv_side():
+                    rp = plan["recv_side"]
+                    if rp["accept_delay"]:
+                        await asyncio.sleep(rp["accept_delay"])
+                    out = await run.invoke(("accept", None))
+                    note("reader", 0, "accept", out)
+                    if out[0] != "ok":
+                        return
+                    if rp["style"] == "typed":
+                        for i in range(8):
+                            out = await run.invoke(("receive_text",))
+                            note("reader", 1 + i, "receive_text", out)
+                            if out[0] != "ok":
+                                return
+                        return
+                    g = run.ws.iter_text()
+                    run.keep.append(g)
+                    n = 0
+                    try:
+                        async for _x in g:
+                            n += 1
+                            ctx.sch("iter-item", n)
+                            if rp["style"] == "iter+receive" and n % rp["body_receive_every"] == 0:
+                                # the loop body reads the channel itself: it may be handed the disconnect
+                                out = await run.invoke(("receive",))
+                                note("reader", 100 + n, "receive", out)
+                            d = rp["delays"][n % len(rp["delays"])]
+                            if d:
+                                await asyncio.sleep(d)
+                            if n > 12:
+                                break
+                        note("reader", 200, "iter_text", ("ok", n))
+                    except asyncio.CancelledError:
+                        raise
+                    except Exception as e:  # noqa
+                        note("reader", 200, "iter_text", ("exc", type(e).__name__, e))
+
+                async def send_side():
+                    for i, (op, dl) in enumerate(plan["send_side"]):
+                        if dl:
+                            await asyncio.sleep(dl)
+                        out = await run.invoke(op)
+                        note("writer", i, op[0], out)
+
+                tasks = [loop.create_task(recv_side(), name="reader"), loop.create_task(send_side(), name="writer")]
+            elif plan["variant"] == "seq":
                 async def prog():
                     for i, (op, dl) in enumerate(plan["ops"]):
                         await run.step("main", i, op, dl)
